@@ -95,19 +95,35 @@ class Disk:
             open(os.path.join(self.root, p), "w").close()
         self.have = want
 
+API_MSG = None
+
+def calibrate(ext):
+    """The glue turns every engine error into ValueError(str(error)); only the text tells the kinds apart.
+    The API error's text is constant: learn it by provoking one (a second event_startup), so that a
+    reworded message is no divergence. Internal and contract errors both count as 'error'."""
+    global API_MSG
+    e = ext.PPG2Evaluator({}, lambda *a: True, lambda j: "")
+    e.add_node("calib", "Output")
+    e.event_startup()
+    try:
+        e.event_startup()
+    except ValueError as ex:
+        API_MSG = str(ex)
+    if API_MSG is None:
+        raise RuntimeError("second event_startup was not rejected with ValueError")
+
+def coarse(kind):
+    return "error" if kind in ("internal", "contract") else kind
+
 def kind_of(exc):
     n = type(exc).__name__
     if n == "PanicException":
         return "panic"
-    m = str(exc)
     if isinstance(exc, ValueError):
-        if m.startswith("API error"): return "api"
-        if m.startswith("Internal error"): return "internal"
-        if m.startswith("Ephemeral "): return "contract"
-        if m == "job not done": return "notdone"
+        return "api" if str(exc) == API_MSG else "error"
     if isinstance(exc, KeyError):
         return "nosuchjob"
-    return "exception:" + n + ":" + m[:80]
+    return "exception:" + n + ":" + str(exc)[:80]
 
 def replay_eval(ext, cmpmod, t, disk):
     """returns None or (call index, what, expected, got)"""
@@ -164,7 +180,7 @@ def replay_eval(ext, cmpmod, t, disk):
             if got != c["r"]:
                 return (ci, "is_finished", c["r"], got)
             continue
-        if got != c["r"]:
+        if got != coarse(c["r"]):
             return (ci, what + "(" + str(c["j"]) + ") result", c["r"], got)
         if what == "hist" and got == "ok":
             exp = json.loads(c["a"])
@@ -196,8 +212,10 @@ def replay_eval(ext, cmpmod, t, disk):
                 got = e.get_job_output(jid)
             except KeyboardInterrupt:
                 raise
+            except ValueError:
+                got = None      # "job not done"
             except BaseException as ex:  # noqa
-                got = None if kind_of(ex) == "notdone" else kind_of(ex)
+                got = kind_of(ex)
             want = None if exp is None else conv(exp)
             if got != want:
                 return (len(t["calls"]), "get_job_output(" + jid + ")", want, got)
@@ -209,6 +227,7 @@ def main():
     try:
         try:
             ext = load_ext(tmp)
+            calibrate(ext)
             cmpmod = load_cmp()
         except Exception as ex:  # noqa
             print("pybridge: cannot load the extension module or history_comparisons.py:", repr(ex))
